@@ -19,7 +19,15 @@
      x = f(a, ...)          a call of a function defined at module level in the same file: its translated body is run on
                             fresh locals holding the arguments; what it returns is assigned (or unpacked), what it raises
                             is raised at the call
-     for x in range(a, b): B else: E   is desugared by the translator into the infinite loop SLoop with a hidden counter *)
+     for x in range(a, b): B else: E   is desugared by the translator into the infinite loop SLoop with a hidden counter
+   Second layer (istmt / exec_inv, for the body of SphinxInventory._parseInventory): statements with the effect
+   self.error(...) and a dict local; a direct-style total interpreter that threads the list of reports.  Primitive there:
+     s.splitlines()         Model.Inventory.splitlines (ESplitLines; validated against CPython by the harness)
+     for x in l: B          structural iteration over the items of a list of str (no else clause)
+     d = {} / d[k] = (b, l) an insertion ordered dict of str -> (str, str): Model.Inventory.dict_set
+     self.error('sphinx', 'Failed to parse line "%s" for %s' % (a, b))   appends the report RLine a b; the translator
+                            accepts exactly this message (or the same text as an f-string)
+     t = _parseInventoryLine(a)   ICall: the translated code_parse_line run on fresh locals (call_fn), as SCall *)
 From Coq Require Import ZArith NArith List Bool.
 From PydoctorVerif Require Import Base.Sexp Model.Inventory.
 Import ListNotations.
@@ -27,7 +35,8 @@ Import ListNotations.
 Definition var := nat.
 
 Inductive value :=
-| VUnbound | VNone | VBool (b : bool) | VInt (z : Z) | VStr (t : text) | VList (l : list text) | VTuple (vs : list value).
+| VUnbound | VNone | VBool (b : bool) | VInt (z : Z) | VStr (t : text) | VList (l : list text) | VTuple (vs : list value)
+| VDict (d : dict).
 
 Inductive cmpop := CLt | CLe | CGt | CGe | CEq | CNe.
 
@@ -47,7 +56,8 @@ Inductive expr :=
 | ELinksGet (key default : expr)              (* self._links.get(key, default) *)
 | ELinksHas (key : expr)                      (* key in self._links *)
 | ELinksIndex (key : expr)                    (* self._links[key] *)
-| EFormat (parts : list expr).                (* f'...': the concatenation of str pieces *)
+| EFormat (parts : list expr)                 (* f'...': the concatenation of str pieces *)
+| ESplitLines (e : expr).                     (* e.splitlines() *)
 
 (* what an assignment binds: x = ... / a, b = ... / a, *m, z = ... *)
 Inductive target :=
@@ -93,6 +103,7 @@ Definition truthy (v : value) : option bool :=
   | VStr t => Some (negb (is_empty t))
   | VList l => Some (match l with [] => false | _ => true end)
   | VTuple l => Some (match l with [] => false | _ => true end)
+  | VDict d => Some (match d with [] => false | _ => true end)
   end.
 
 (* Python index normalisation: i < 0 counts from the end *)
@@ -115,6 +126,24 @@ Definition eval_cmp (op : cmpop) (a b : Z) : bool :=
   | CLt => Z.ltb a b | CLe => Z.leb a b | CGt => Z.gtb a b | CGe => Z.geb a b
   | CEq => Z.eqb a b | CNe => negb (Z.eqb a b)
   end.
+
+(* a translated function: its body, the number of local slots, and the slots of its parameters *)
+Record fn_code := { f_body : stmt; f_locals : nat; f_params : list var }.
+
+(* the second layer: statements of a method that reports errors and fills a dict *)
+Inductive istmt :=
+| ISkip
+| ISeq (a b : istmt)
+| ILocal (s : stmt)                           (* any statement of the first layer (no report, no dict store) *)
+| INewDict (x : var)                          (* x = {} *)
+| IDictStore (x : var) (k v : expr)           (* x[k] = v *)
+| IErrorLine (line base : expr)               (* self.error('sphinx', 'Failed to parse line "%s" for %s' % (line, base)) *)
+| ICall (t : target) (c : fn_code) (args : list expr)     (* t = f(args), f a translated module level function *)
+| IIf (c : expr) (th el : istmt)
+| IForEach (x : var) (e : expr) (body : istmt)            (* for x in e: body   (e a list of str) *)
+| ITry (body : istmt) (ks : list exn) (handler : istmt) (orelse : istmt).   (* try / except ks / else *)
+
+Record inv_code := { i_body : istmt; i_locals : nat; i_params : list var }.
 
 Section Eval.
   Variable int_of : text -> option Z.
@@ -250,6 +279,11 @@ Section Eval.
            | [] => EV (VStr acc)
            | x :: r => match eval x e with EV (VStr t) => go r (acc ++ t) | EV _ => EStuck | o => o end
            end) ps []
+    | ESplitLines a =>
+        match eval a e with
+        | EV (VStr t) => EV (VList (splitlines t))
+        | EV _ => EStuck | o => o
+        end
     end.
 
   Inductive outcome :=
@@ -431,10 +465,96 @@ Section Eval.
     finish (exec fuel body
                  (fold_left (fun e pv => setv (fst pv) (snd pv) e) params (repeat VUnbound nlocals))
                  (fun o => o)).
+
+  (* f(vs) for a translated function: fresh locals, the parameters bound to the arguments *)
+  Definition call_fn (fuel : nat) (c : fn_code) (vs : list value) : result :=
+    match bind_params (f_params c) vs (repeat VUnbound (f_locals c)) with
+    | Some ec => finish (exec fuel (f_body c) ec (fun o => o))
+    | None => RStuck
+    end.
+
+  (* for x in l: B -- structural in l; `continue` goes to the next item, `break` leaves the loop *)
+  Fixpoint foreach (B : env -> list report -> outcome * list report) (x : var) (l : list text) (e : env)
+           (r : list report) : outcome * list report :=
+    match l with
+    | [] => (ONormal e, r)
+    | t :: l' =>
+        match B (setv x (VStr t) e) r with
+        | (ONormal e1, r1) | (OContinue e1, r1) => foreach B x l' e1 r1
+        | (OBreak e1, r1) => (ONormal e1, r1)
+        | o => o
+        end
+    end.
+
+  (* direct-style big-step semantics of the second layer; the reports made so far are threaded through *)
+  Fixpoint exec_inv (fuel : nat) (s : istmt) (e : env) (r : list report) {struct s} : outcome * list report :=
+    match s with
+    | ISkip => (ONormal e, r)
+    | ISeq a b => match exec_inv fuel a e r with (ONormal e1, r1) => exec_inv fuel b e1 r1 | o => o end
+    | ILocal s' => (exec fuel s' e (fun o => o), r)
+    | INewDict x => (ONormal (setv x (VDict []) e), r)
+    | IDictStore x k v =>
+        match eval v e with
+        | EV (VTuple [VStr b; VStr l]) =>
+            match getv x e with
+            | VDict d =>
+                match eval k e with
+                | EV (VStr n) => (ONormal (setv x (VDict (dict_set n (b, l) d)) e), r)
+                | EV _ => (OStuck, r) | EX x' => (ORaise x' e, r) | EStuck => (OStuck, r)
+                end
+            | _ => (OStuck, r)
+            end
+        | EV _ => (OStuck, r) | EX x' => (ORaise x' e, r) | EStuck => (OStuck, r)
+        end
+    | IErrorLine a b =>
+        match eval a e with
+        | EV (VStr l) =>
+            match eval b e with
+            | EV (VStr bs) => (ONormal e, r ++ [RLine l bs])
+            | EV _ => (OStuck, r) | EX x' => (ORaise x' e, r) | EStuck => (OStuck, r)
+            end
+        | EV _ => (OStuck, r) | EX x' => (ORaise x' e, r) | EStuck => (OStuck, r)
+        end
+    | ICall t c args =>
+        match eval_args args e [] with
+        | inr x' => (ORaise x' e, r)
+        | inl None => (OStuck, r)
+        | inl (Some vs) =>
+            match call_fn fuel c vs with
+            | RReturn v => match assign t v e with
+                           | AOk e1 => (ONormal e1, r) | AExn x' => (ORaise x' e, r) | AStuck => (OStuck, r)
+                           end
+            | RRaise x' => (ORaise x' e, r)
+            | RStuck => (OStuck, r)
+            | RFuel => (OFuel, r)
+            end
+        end
+    | IIf c th el =>
+        match eval c e with
+        | EV v => match truthy v with
+                  | Some true => exec_inv fuel th e r
+                  | Some false => exec_inv fuel el e r
+                  | None => (OStuck, r)
+                  end
+        | EX x' => (ORaise x' e, r)
+        | EStuck => (OStuck, r)
+        end
+    | IForEach x ex body =>
+        match eval ex e with
+        | EV (VList l) => foreach (exec_inv fuel body) x l e r
+        | EV _ => (OStuck, r)
+        | EX x' => (ORaise x' e, r)
+        | EStuck => (OStuck, r)
+        end
+    | ITry body ks h orelse =>
+        match exec_inv fuel body e r with
+        | (ONormal e1, r1) => exec_inv fuel orelse e1 r1
+        | (ORaise x e1, r1) => if existsb (exn_eqb x) ks then exec_inv fuel h e1 r1 else (ORaise x e1, r1)
+        | o => o
+        end
+    end.
 End Eval.
 
-(* a translated function: its body, the number of local slots, and the slots of its parameters *)
-Record fn_code := { f_body : stmt; f_locals : nat; f_params : list var }.
 
 (* _parseInventoryLine(line): iterations are bounded by the number of characters of the line *)
 Definition parse_line_ir (c : fn_code) (int_of : text -> option Z) (line : text) : result :=
@@ -458,3 +578,22 @@ Definition result_of_columns (o : Inventory.outcome columns) : result :=
   end.
 Definition result_of_link (o : option text) : result :=
   match o with Some u => RReturn (VStr u) | None => RReturn VNone end.
+
+(* SphinxInventory._parseInventory(self, base_url, payload): the loops of _parseInventoryLine are bounded by the longest
+   line; what is returned and the reports made, in order *)
+Definition max_len (l : list text) : nat := fold_right (fun t m => Nat.max (length t) m) O l.
+
+Definition parse_inventory_ir (c : inv_code) (int_of : text -> option Z) (base payload : text) : result * list report :=
+  match i_params c with
+  | [pb; pp] =>
+      let (o, r) := exec_inv int_of [] (max_len (splitlines payload) + 3) (i_body c)
+                             (setv pp (VStr payload) (setv pb (VStr base) (repeat VUnbound (i_locals c)))) [] in
+      (finish o, r)
+  | _ => (RStuck, [])
+  end.
+
+Definition result_of_inventory (o : Inventory.outcome (dict * list report)) : result * list report :=
+  match o with
+  | Ok (d, r) => (RReturn (VDict d), r)
+  | Raise x => (RRaise x, [])
+  end.
